@@ -110,7 +110,7 @@ import ast  # noqa
 
 def build(repo):
     D = Dom(repo)
-    D.ghost_shapes = {'ulo': 'fp', 'uhi': 'fp', 'lo': 'fp', 'hi': 'fp', 'first': 'bool'}
+    D.ghost_shapes = {'ulo': 'fp', 'uhi': 'fp', 'lo': 'fp', 'hi': 'fp', 'first': 'bool', 'col': 'int'}
     fs = D.field_shapes
     for f in ('xl', 'xu', 'xbase', 'sl', 'su', 'points', 'xsave'):
         fs[('Model', f)] = 'fp' if f != 'xsave' else 'opt:fp'
@@ -260,7 +260,14 @@ def build(repo):
                loops={'while#0': ['inbox(xmin)', 'finite(xmin)', 'box_ok()']},
                modifies=['G.lo', 'G.hi', 'G.first', 'params[*]'], result='unk',
                ensures=['T_C01: the returned solution lies inside the caller\'s bounds, exactly:: implies(result.flag != EXIT_INPUT_ERROR, inuser(result.x))'])
-    D.verify_list = ['solve', 'Controller.trust_region_step', 'Controller.evaluate_criticality_measure', 'Controller.__init__', 'Controller.geometry_step', 'Controller.check_and_fix_geometry', 'Controller.add_new_direction_while_growing',
+    # ------------------------------------------------------------------ C14 / C01 (5): the direction generators clip every returned direction into [lower, upper]
+    for q, loopkey in (('random_directions_within_bounds', 'for:i#1'), ('random_orthog_directions_within_bounds', 'for:i#5')):
+        D.contract(q, tags=['C14', 'C01'], params={'num_pts': 'int', 'delta': 'fp', 'lower': 'fp', 'upper': 'fp'},
+                   requires=['A-nan:: notnan(lower) and notnan(upper)', 'lower <= upper'], modifies=[], result='fp',
+                   loops={loopkey: ['columns already processed by the final loop are inside the bounds:: implies(0 <= G.col and G.col < i_, lower <= results and results <= upper)',
+                                    'A-nan (directions computed from normalised Gaussians / QR columns are not NaN):: notnan(results)']},
+                   ensures=['every returned direction lies inside [lower, upper], exactly:: implies(0 <= G.col and G.col < num_pts, lower <= result and result <= upper)'])
+    D.verify_list = ['random_directions_within_bounds', 'random_orthog_directions_within_bounds', 'solve', 'Controller.trust_region_step', 'Controller.evaluate_criticality_measure', 'Controller.__init__', 'Controller.geometry_step', 'Controller.check_and_fix_geometry', 'Controller.add_new_direction_while_growing',
                      'Controller.initialise_coordinate_directions', 'Controller.initialise_random_directions', 'Controller.move_furthest_points',
                      'Controller.move_furthest_points_momentum', 'Controller.soft_restart', 'solve_main', 'pbox', 'apply_scaling', 'remove_scaling', 'dykstra', 'Model.__init__', 'Model.as_absolute_coordinates', 'Model.xpt',
                      'Model.save_point', 'Model.get_final_results', 'eval_least_squares_with_regularisation', 'Controller.evaluate_objective']
